@@ -98,7 +98,8 @@ PROPS = {
         contracts=[f"{FS}:{c}.apply" for c in ("Adder", "Subtractor", "Multiplier", "Divider", "Maximizer", "Minimizer",
                                                "Consumption", "Production", "Clipper", "ConstantValue", "MetricFetcher")],
         lemmas=[],
-        bounded=[],
+        bounded=[dict(kind="native_script", name="whole expressions: output None iff a needed input is missing or the result is undefined",
+                      module="native.explore_formulas")],
         level="proof",
         explanation="Every formula step's apply() is verified in IEEE-754 binary64 (z3 FloatingPoint theory, python's max/min "
                     "and ZeroDivisionError semantics): a NaN operand in either position gives NaN, no step raises on any float "
@@ -316,5 +317,21 @@ PROPS = {
                      "gap-list maintenance (_update_gaps/_cleanup_gaps/_remove_gap: in-place mutation of aliased Gap objects "
                      "while deleting) and window assembly over numpy/list slices are outside the verifier's subset: bounded only",
                      "MovingWindow's thin wrappers not under contract"],
+    ),
+    "C05": dict(
+        modules=["fe_steps"],
+        contracts=[f"{FS}:{c}.apply" for c in ("Adder", "Subtractor", "Multiplier", "Divider", "Maximizer", "Minimizer",
+                                               "Consumption", "Production", "Clipper", "ConstantValue", "MetricFetcher")],
+        lemmas=[],
+        bounded=[dict(kind="native_script", name="compiled formula vs exact arithmetic (Tokenizer, FormulaBuilder, composition API)",
+                      module="native.explore_formulas")],
+        level="exploration",
+        explanation="The property proper (compiler correctness of the shunting-yard with its unconventional precedence table and of "
+                    "the composition API's implicit parenthesisation) is only EXPLORED, bounded: real Tokenizer/FormulaBuilder/"
+                    "HigherOrderFormulaBuilder output executed on a float stack vs exact Fraction evaluation with ordinary "
+                    "precedence. Proved deductively (and listed under obligations): every step's stack effect and operand order.",
+        assumptions=[EXTRACTION, "bounded: expression shapes and input lattice as stated in coverage.rule",
+                     "a deductive proof would need a grammar-level invariant relating the operator stack to a parse forest plus "
+                     "re-association over the reals; not attempted (DESIGN 3, C05)"],
     ),
 }
